@@ -54,6 +54,7 @@ func lrun(args []string) int {
 	outPath := fs.String("out", "", "observed trace (ndjson)")
 	mode := fs.String("mode", "last", "last: observe only the final op of each script; all: every op")
 	workers := fs.Int("workers", 8, "parallel script executions")
+	progress := fs.String("progress", "", "file to which 'S <sid>' / 'D <sid>' lines are appended (to find the script running at a crash)")
 	complete := fs.Bool("complete", false, "after each script, exchange state by pairwise joins until fixpoint (observed)")
 	_ = fs.Parse(args)
 
@@ -91,6 +92,24 @@ func lrun(args []string) int {
 	}
 	reg := world.NewRegistry(pool)
 
+	var progF *os.File
+	var progMu sync.Mutex
+	if *progress != "" {
+		progF, err = os.OpenFile(*progress, os.O_CREATE|os.O_WRONLY|os.O_APPEND, 0o644)
+		if err != nil {
+			fmt.Fprintln(os.Stderr, "harness:", err)
+			return 2
+		}
+		defer progF.Close()
+	}
+	mark := func(tag string, sid int) {
+		if progF == nil {
+			return
+		}
+		progMu.Lock()
+		fmt.Fprintf(progF, "%s %d\n", tag, sid)
+		progMu.Unlock()
+	}
 	results := make([][]ldriver.Event, len(scripts))
 	var wg sync.WaitGroup
 	var mu sync.Mutex
@@ -105,7 +124,9 @@ func lrun(args []string) int {
 		go func() {
 			defer wg.Done()
 			for i := range jobs {
+				mark("S", i+1)
 				evs, err := ldriver.RunScript(ctx, cfg, pool, reg, i+1, scripts[i], *mode, *complete)
+				mark("D", i+1)
 				if err != nil {
 					mu.Lock()
 					if firstErr == nil {
